@@ -273,8 +273,8 @@ _DEFAULT_AST_FIELD = {kls: field for field, classes in [  # builds to {Module: '
 _re_dump_line_tail     = re.compile(r'\s* ( \#.*$ | \\$ | ; (?: \s* (?: \#.*$ | \\$ ) )? )', re.VERBOSE)
 _re_one_space_or_end   = re.compile(r'\s|$')
 
-_re_par_open_alnums    = re.compile(rf'[{pat_alnum}.][(][{pat_alnum}]')
-_re_par_close_alnums   = re.compile(rf'[{pat_alnum}.][)][{pat_alnum}]')
+_re_alnum              = re.compile(rf'[{pat_alnum}]')
+_re_alnum_or_dot       = re.compile(rf'[{pat_alnum}.]')
 _re_delim_open_alnums  = re.compile(rf'[{pat_alnum}.][({{[][{pat_alnum}]')
 _re_delim_close_alnums = re.compile(rf'[{pat_alnum}.][)}}\]][{pat_alnum}]')
 
@@ -1740,17 +1740,17 @@ def _unparenthesize_grouping(self: fst.FST, shared: bool | None = True, *, star_
         self._put_src(None, pln, pcol, ln, col, False)
 
     else:  # in all other case we need to make sure par is not separating us from an alphanumeric on either side, and if so then just replace that par with a space
-        if pend_col >= 2 and _re_par_close_alnums.match(l := lines[pend_ln], pend_col - 2):
-            lines[pend_ln] = bistr(l[:pend_col - 1] + ' ' + l[pend_col:])
+        if end_col and _re_alnum_or_dot.match(lines[end_ln], end_col - 1) and _re_alnum.match(lines[pend_ln], pend_col):  # what follows the last par would join the end of the node (however many pars and whatever else is in between)
+            self._put_src(' ', end_ln, end_col, pend_ln, pend_col, True, self)
         else:
             self._put_src(None, end_ln, end_col, pend_ln, pend_col, True, self)
 
-        if pcol and _re_par_open_alnums.match(l := lines[pln], pcol - 1):
-            lines[pln] = bistr(l[:pcol] + ' ' + l[pcol + 1:])
+        if pcol and _re_alnum_or_dot.match(lines[pln], pcol - 1) and _re_alnum.match(lines[ln], col):  # same for what precedes the first par and the start of the node
+            self._put_src(' ', pln, pcol, ln, col, False)
         else:
             self._put_src(None, pln, pcol, ln, col, False)
 
-        self._touch()  # parentheses replaced by spaces directly in the lines do not go through an offset so cached `pars()` must be dropped explicitly
+        self._touch()  # a par replaced by a space of the same length moves nothing so cached `pars()` must be dropped explicitly
 
     return True
 
